@@ -1,6 +1,7 @@
 (* C04 — transform of the training data reproduces the model's scores. Statements only. *)
 From Coq Require Import String ZArith List Bool.
-From XV Require Import Base.Scalar Base.Sum Base.Mat Model.Eof Model.Rot Proofs.C01_proofs Proofs.C11_proofs.
+From XV Require Import Base.Scalar Base.Sum Base.Mat Model.Eof Model.Rot Model.FlagState Gen.T5flag Proofs.C01_proofs Proofs.C11_proofs
+  Proofs.FlagState_proofs Proofs.RotState_proofs Proofs.Flag_tie.
 Import ListNotations.
 
 (* EOF-type models: X V_k = U_k diag(s_k), with the model's own sign convention *)
@@ -29,3 +30,32 @@ Theorem C04_eof_rotator_sorted : forall (F : Type) (K : Ops F), FieldLaws K ->
   rot_transform K n p k Vk sv RinvT true idx (rot_sort K n p idx fitted) X = r_scores (rot_sort K n p idx fitted).
 Proof. exact (@rot_transform_training_sorted). Qed.
 Print Assumptions C04_eof_rotator_sorted.
+
+(* the rotator as a state machine (Model/FlagState.v: fit stores the arrays unsorted and resets the `sorted` flag, compute()
+   sorts once and sets it, transform consults it): whatever state s0 the object was in and whatever was fitted, computed
+   or asked before, after a fit and any number of compute() calls, transform of that fit's training data returns the
+   scores the object holds *)
+Theorem C04_rotator_any_history : forall (F : Type) (K : Ops F), FieldLaws K ->
+  forall (n p k : nat) (Vk Un : mat) (lam sv : vec) (R RinvT X : mat) (idx : list nat)
+         (before after : list (fop (@rot_out F))) (s0 : fstate (@rot_out F)),
+  (length idx = k /\ forall j, (j < k)%nat -> (nth j idx O < k)%nat) ->
+  mmul K n p k X Vk = colscale K n k Un sv -> (forall j, (j < k)%nat -> vget K sv j <> f0 K) -> wf K n k Un ->
+  Forall (fun o => o = FCompute _) after ->
+  let s := frun _ (rot_sort K n p) true true s0 (before ++ FFit _ (rot_fit K n p k Vk Un lam R RinvT) idx :: after) in
+  rot_transform K n p k Vk sv RinvT (fs_sorted _ s) (fs_idx _ s) (fs_data _ s) X = r_scores (fs_data _ s).
+Proof. exact (@rot_state_transform_training). Qed.
+Print Assumptions C04_rotator_any_history.
+
+(* the flag protocol regenerated from the source is the variant (fit resets, sorting guarded) the theorem is about *)
+Theorem C04_flag_protocol_matches_source :
+  flag_protocol = [("EOFRotator", (true, true)); ("CPCCARotator", (true, true)); ("POP", (true, true))]%string.
+Proof. exact flag_protocol_faithful. Qed.
+Print Assumptions C04_flag_protocol_matches_source.
+
+(* a fit that does not reset the flag: after fit, compute, fit, compute the arrays of the second fit are still unsorted
+   although the flag (and hence transform) says sorted *)
+Theorem C04_flag_not_reset_refuted :
+  let s := frun (list nat) reindex false true (finit _ [1; 3; 2] [1; 2; 0]) hist in
+  fs_sorted _ s = true /\ fs_data _ s = [10; 30; 20] /\ reindex (fs_idx _ s) (fs_fresh _ s) = [30; 20; 10].
+Proof. exact no_reset_refuted. Qed.
+Print Assumptions C04_flag_not_reset_refuted.
